@@ -100,6 +100,10 @@ func c17Replay(hist string, short bool) ([]*biscuit.Biscuit, error) {
 			ser, err = tok.Serialize()
 			if err == nil {
 				tok, err = dec.Unmarshal(ser)
+				// the caller reuses its receive buffer: the token must not live in it
+				for k := range ser {
+					ser[k] ^= 0xff
+				}
 			}
 		}
 		if err != nil {
